@@ -61,6 +61,7 @@ func New(w *chain.World, seed int64, mix Mix) *Gen {
 	for _, n := range g.names {
 		g.total += mix[n]
 	}
+	w.GovTraffic = g.Block
 	return g
 }
 
